@@ -450,6 +450,12 @@ package raft
 //@   ensures  kept_unchanged: forall i uint64 :: r.logs.has[i] ==> old(r.logs.has[i]) && r.logs.ent[i] == old(r.logs.ent[i])
 //@   ensures  short_log_untouched: r.lastLogIndex <= cfg(r).TrailingLogs ==> r.logs.has == old(r.logs.has) && r.logs.ent == old(r.logs.ent)
 
+// a store that cannot hold gaps says so (ghost flag of the assumed interface contract)
+//@ model MonotonicLogStore { monotonic bool }
+//@ interface MonotonicLogStore.IsMonotonic()
+//@   modifies nothing
+//@   ensures  reports_its_kind: result == this.monotonic
+
 //@ func (r *Raft) removeOldLogs
 //@   requires nonnil: r != nil && r.logs != nil
 //@   modifies r.logs.has, r.logs.ent, r.logs.first, r.logs.last
@@ -705,6 +711,7 @@ package raft
 //@   ensures  durable_before_restore: sent(r.fsmMutateCh) != old(sent(r.fsmMutateCh)) ==> snapDurable[max(meta.Index, max(old(r.lastLogIndex), old(r.lastSnapshotIndex))) + 1]
 //@   ensures  error_leaves_cached_tail: result != nil ==> r.lastLogIndex == old(r.lastLogIndex) && r.lastApplied == old(r.lastApplied) && r.lastSnapshotIndex == old(r.lastSnapshotIndex)
 //@   ensures  term_untouched: r.currentTerm == old(r.currentTerm) && r.state == old(r.state)
+//@   ensures  wholesale_reset_only_on_a_store_that_cannot_hold_gaps: (exists i uint64 :: old(r.logs.has[i]) && !r.logs.has[i]) ==> cast(r.logs, MonotonicLogStore).monotonic
 //@   ensures  every_inflight_request_cancelled: result == nil ==> listLen[r.leaderState.inflight] == 0
 //@   at call (*deferError).respond#1 assert aborted_by_restore: arg1 == ErrAbortedByRestore
 //@   at call (*deferError).Error#1 assert restore_request_has_shutdown_escape: fsm.ShutdownCh == r.shutdownCh && sent(r.fsmMutateCh) == old(sent(r.fsmMutateCh)) + 1
@@ -743,6 +750,7 @@ package raft
 //@   ensures  durable_before_publish: r.lastSnapshotIndex != old(r.lastSnapshotIndex) ==> snapDurable[r.lastSnapshotIndex]
 //@   ensures  durable_before_restore: sent(r.fsmMutateCh) != old(sent(r.fsmMutateCh)) ==> snapDurable[req.LastLogIndex]
 //@   ensures  nothing_removed_without_durable_snapshot: (exists i uint64 :: old(r.logs.has[i]) && !r.logs.has[i]) ==> snapDurable[req.LastLogIndex]
+//@   ensures  wholesale_reset_only_on_a_store_that_cannot_hold_gaps: (exists i uint64 :: old(r.logs.has[i]) && !r.logs.has[i] && i > req.LastLogIndex) ==> cast(r.logs, MonotonicLogStore).monotonic
 //@   ensures  cached_log_tail_untouched: r.lastLogIndex == old(r.lastLogIndex) && r.lastLogTerm == old(r.lastLogTerm)
 //@   ensures  handshake: isResp(rpc).Success ==>
 //@              (req.LastLogIndex == lastEntryIndex(r) && req.LastLogTerm == lastEntryTerm(r)) ||
@@ -795,6 +803,7 @@ package raft
 //@   at call Transport.AppendEntries#1 assert heartbeat_carries_no_commit_index: arg2.PrevLogEntry == 0 && arg2.PrevLogTerm == 0 &&
 //@              arg2.LeaderCommitIndex == 0 && len(arg2.Entries) == 0 && arg2.Term == s.currentTerm
 //@   loop 1 invariant notify_valid: s.notify != nil && (forall w *verifyFuture :: dom(s.notify, w) ==> w != nil && w.votes < MaxInt63)
+//@   at call (*verifyFuture).vote#* assert votes_are_cast_through_notifyAll_only: false
 
 // ---------------------------------------------------------------------------
 // C10: start-up recovery (function-level slivers)
@@ -1010,6 +1019,10 @@ package raft
 //@              r.commitIndex >= r.leaderState.commitment.startIndex && r.leaderState.leadershipTransferInProgress != 1
 //@   at call (*Raft).dispatchLogs#1 assert not_while_transferring_or_stepping_down: r.leaderState.leadershipTransferInProgress != 1 && !stepDown
 //@   at call time.After#2 assert lease_check_interval_floor: arg0 >= minCheckInterval
+//@   at call (*deferError).respond#3 assert verify_succeeds_only_with_its_quorum: arg1 == nil && v.quorumSize != 0 && v.votes >= v.quorumSize
+//@   at call (*deferError).respond#2 assert verify_fails_as_not_leader: arg1 == ErrNotLeader && v.votes < v.quorumSize && r.state == Follower
+//@   at call (*deferError).respond#10 assert apply_refused_during_transfer: arg1 == ErrLeadershipTransferInProgress && r.leaderState.leadershipTransferInProgress == 1
+//@   at call (*deferError).respond#11 assert apply_refused_while_stepping_down: arg1 == ErrNotLeader && stepDown
 //@   loop 1 step restore_answered: received(r.userRestoreCh) != old(received(r.userRestoreCh)) ==> answered(lastreceived(r.userRestoreCh).deferError)
 //@   loop 1 step configurations_answered: received(r.configurationsCh) != old(received(r.configurationsCh)) ==> answered(lastreceived(r.configurationsCh).deferError)
 //@   loop 1 step bootstrap_answered: received(r.bootstrapCh) != old(received(r.bootstrapCh)) ==> answered(lastreceived(r.bootstrapCh).deferError)
@@ -1185,20 +1198,22 @@ package raft
 //@ func updateLastAppended
 //@   requires nonnil: s != nil && req != nil && s.commitment != nil
 //@   localonly
-//@   at call (*commitment).match#1 assert reports_last_entry_sent: len(req.Entries) > 0 && arg2 == req.Entries[len(req.Entries) - 1].Index && arg1 == s.peer.ID
+//@   at call (*commitment).match#* assert reports_last_entry_sent: len(req.Entries) > 0 && arg2 == req.Entries[len(req.Entries) - 1].Index && arg1 == s.peer.ID
 //@   at call (*followerReplication).notifyAll#1 assert next_index_follows_match: len(req.Entries) > 0 && req.Entries[len(req.Entries) - 1].Index < MaxUint64 ==> s.nextIndex == req.Entries[len(req.Entries) - 1].Index + 1
 
 //@ func (r *Raft) replicateTo
 //@   requires nonnil: r != nil && s != nil && r.trans != nil && r.logs != nil && r.logger != nil && r.snapshots != nil && s.commitment != nil
 //@   localonly
-//@   at call updateLastAppended#1 assert match_only_from_successful_response: resp.Success && resp.Term <= req.Term
+//@   at call (*verifyFuture).vote#* assert votes_are_cast_through_notifyAll_only: false
+//@   at call updateLastAppended#* assert match_only_from_successful_response: resp.Success && resp.Term <= req.Term
 //@   at call (*Raft).handleStaleTerm#1 assert newer_term_stops_replication: resp.Term > req.Term
 //@   at call (*followerReplication).setLastContact#1 assert contact_only_from_a_current_term_response: resp.Term <= req.Term
 
 //@ func (r *Raft) sendLatestSnapshot
 //@   requires nonnil: r != nil && s != nil && r.trans != nil && r.logger != nil && r.snapshots != nil && s.commitment != nil
 //@   localonly
-//@   at call (*commitment).match#1 assert match_only_from_successful_install: resp.Success && resp.Term <= req.Term && arg2 == meta.Index && arg1 == peer.ID
+//@   at call (*verifyFuture).vote#* assert votes_are_cast_through_notifyAll_only: false
+//@   at call (*commitment).match#* assert match_only_from_successful_install: resp.Success && resp.Term <= req.Term && arg2 == meta.Index && arg1 == peer.ID
 //@   at call Transport.InstallSnapshot#1 assert request_describes_the_snapshot_sent: arg2.LastLogIndex == meta.Index && arg2.LastLogTerm == meta.Term && arg2.Term == s.currentTerm && arg2.ConfigurationIndex == meta.ConfigurationIndex && arg0 == peer.ID
 //@   at call (*Raft).handleStaleTerm#1 assert newer_term_stops_replication: resp.Term > req.Term
 //@   at call (*followerReplication).setLastContact#1 assert contact_only_from_a_current_term_response: resp.Term <= req.Term
@@ -1206,6 +1221,7 @@ package raft
 //@ func (r *Raft) pipelineDecode
 //@   requires nonnil: r != nil && s != nil && s.commitment != nil
 //@   localonly
+//@   at call (*verifyFuture).vote#* assert votes_are_cast_through_notifyAll_only: false
 //@   at call updateLastAppended#1 assert match_only_from_successful_response: resp.Success && resp.Term <= req.Term && arg1 == req
 //@   at call (*Raft).handleStaleTerm#1 assert newer_term_stops_replication: resp.Term > req.Term
 //@   at call (*followerReplication).setLastContact#1 assert contact_only_from_a_current_term_response: resp.Term <= req.Term
@@ -1346,12 +1362,18 @@ package raft
 // C15: Open hands out a snapshot only after the checksum of the state file it is about to return
 // matched the checksum recorded in the metadata
 
+//@ ghostvar jsonErrors int
+//@ extern (*encoding/json.Decoder).Decode(d, v)
+//@   modifies jsonErrors, boxes(), allof("H.fileSnapshotMeta."), allof("H.SnapshotMeta."), allof("E.")
+//@   ensures  counted: (result != nil) == (jsonErrors == old(jsonErrors) + 1) && (result == nil) == (jsonErrors == old(jsonErrors))
+
+// readMeta: metadata is handed out only if the decoder reported success (what the bytes mean is not modelled)
 //@ func (f *FileSnapshotStore) readMeta
-//@   trusted reads and JSON-decodes meta.json (encoding/json and the file system are not modelled); writes no store state
 //@   requires nonnil: f != nil
-//@   modifies nothing
+//@   modifies jsonErrors, boxes(), allof("H.fileSnapshotMeta."), allof("H.SnapshotMeta."), allof("E."), allof("H.os.File.")
 //@   fresh result0
 //@   ensures  meta_or_error: (result1 == nil) == (result0 != nil)
+//@   ensures  undecodable_metadata_is_an_error: result1 == nil ==> jsonErrors == old(jsonErrors)
 
 //@ func (f *FileSnapshotStore) Open
 //@   requires nonnil: f != nil && f.logger != nil
@@ -1368,3 +1390,34 @@ package raft
 //@   localonly
 //@   loop 1 step user_snapshot_answered: received(r.userSnapshotCh) != old(received(r.userSnapshotCh)) ==> answered(lastreceived(r.userSnapshotCh).deferError)
 //@   at call (*deferError).respond#1 assert answered_with_the_outcome: arg1 == err
+
+// C16, receiving side: one command is decoded into a request object of the type named by the type byte,
+// handed to the consumer together with a fresh response channel, and what is written back is the answer
+// taken from that very channel; a nil result means no read/decode/encode failed.
+
+//@ extern (*bufio.Reader).ReadByte(b)
+//@   modifies ioErrors
+//@   ensures  counted: (result1 != nil) == (ioErrors == old(ioErrors) + 1) && (result1 == nil) == (ioErrors == old(ioErrors))
+
+//@ func (n *NetworkTransport) handleCommand
+//@   requires nonnil: n != nil && r != nil && dec != nil && enc != nil
+//@   localonly
+//@   ensures  failed_exchange_yields_error: result == nil ==> ioErrors == old(ioErrors)
+//@   ensures  dispatched_at_most_once: sent(n.consumeCh) <= old(sent(n.consumeCh)) + 1
+//@   at call time.Now#3 assert request_object_matches_type_byte: rpc.RespChan == respCh &&
+//@              (rpcType == rpcAppendEntries ==> typeis(rpc.Command, *AppendEntriesRequest)) &&
+//@              (rpcType == rpcRequestVote ==> typeis(rpc.Command, *RequestVoteRequest)) &&
+//@              (rpcType == rpcRequestPreVote ==> typeis(rpc.Command, *RequestPreVoteRequest)) &&
+//@              (rpcType == rpcInstallSnapshot ==> typeis(rpc.Command, *InstallSnapshotRequest)) &&
+//@              (rpcType == rpcTimeoutNow ==> typeis(rpc.Command, *TimeoutNowRequest))
+//@   ensures  answer_comes_from_this_requests_channel: sent(n.consumeCh) != old(sent(n.consumeCh)) ==> isfresh(lastsent(n.consumeCh).RespChan)
+//@   at call (*github.com/hashicorp/go-msgpack/v2/codec.Encoder).Encode#2 assert writes_the_answer_it_received: arg1 == resp.Response && resp == lastreceived(respCh)
+
+// a pipeline's connection may carry responses nobody has read yet: closing the pipeline releases the
+// connection and never hands it back to the pool
+//@ func (n *netPipeline) Close
+//@   requires nonnil: n != nil && n.conn != nil
+//@   localonly
+//@   ensures  connection_released_not_pooled: !old(n.shutdown) ==> released[n.conn] && n.shutdown
+//@   ensures  idempotent: old(n.shutdown) ==> released == old(released)
+//@   at call (*NetworkTransport).returnConn#* assert pipeline_connection_never_pooled: false
